@@ -19,7 +19,7 @@ ID = "C17"
 PROP_FILES = ["C17"]
 RULE = (
     "correspondence: SafetyAnalyzer.visit (violations in order: line, kind, detail; the import roots of the shadowing check) vs the Lean visitor on generated modules, hand-written snippets over every node class the visitor "
-    "has a method for, and a per-seed sample of the repository's and the standard library's own sources as a corpus of real syntax; python classify() (with the command's cwd in HandlerContext) vs the model on option/script/argument lists over scratch files, from a hook cwd different from the command cwd "
+    "has a method for, and a per-seed sample of the repository's and the standard library's own sources as a corpus of real syntax; analyze_python_file vs PyFile.analyzeFile over recorded file facts (missing / directory / suffixes / sizes around the limit / undecodable bytes / coding cookies / syntax errors / violations / shadowing siblings / symlinks); python classify() (with the command's cwd in HandlerContext) vs the model on option/script/argument lists over scratch files, from a hook cwd different from the command cwd "
     "(the file analysed is recorded by wrapping analyze_python_file); the model's CPython argv grammar (pythonRuns) vs the real interpreter on marker scripts. "
     "search (T2): scripts generated from the safe-module set x access paths to dangerous functionality (aliasing, attribute chains through safe modules, string-based attribute lookup, operator/functools indirection, "
     "decorators, comprehensions, class bodies, format strings, subscripts of module dictionaries) x option placements; every approved command is executed in a child interpreter whose audit hook records and vetoes file, process, "
@@ -189,7 +189,8 @@ def corr_runs(model, r, n):
 def correspondence(ctx):
     k = 2 if ctx.broken else 1
     return [corr_classify(ctx.model, rng("c17-cls"), ctx.scale(1500, 40000) * k), corr_runs(ctx.model, rng("c17-runs"), ctx.scale(200, 5000) * k),
-            CP.corr_visit(ctx.model, rng("c17-visit"), ctx.scale(600, 20000) * k, ctx.scale(120, 1500) * k)]
+            CP.corr_visit(ctx.model, rng("c17-visit"), ctx.scale(600, 20000) * k, ctx.scale(120, 1500) * k),
+            CP.corr_pyfile(ctx.model, rng("c17-file"), ctx.scale(400, 10000) * k)]
 
 
 # ------------------------------------------------------------------ script generator
